@@ -45,6 +45,8 @@ pub const SITE_POLL_EXISTS: u16 = 15;
 pub const SITE_NOW: u16 = 16;
 /// pure-delay back-off (`backoff::yield_now`): the model skips it
 pub const SITE_BACKOFF: u16 = 17;
+/// start of a hand-off / termination of a waiter (may be inside the channel lock)
+pub const SITE_WAKE_ENTRY: u16 = 18;
 
 /// A scheduling point: the verification model may run other logical threads
 /// here.  No-op in this pass-through version.
